@@ -134,6 +134,9 @@ func (p *Packet) UnmarshalBinary(v []byte) error {
 	if h.Length > MaxBodyLength {
 		return fmt.Errorf("indicated size is too large to unmarshal; max allowed [%v] reported [%v]", MaxBodyLength, h.Length)
 	}
+	if len(v) < MaxHeaderLength+int(h.Length) {
+		return fmt.Errorf("data length [%v] is smaller than the header [%v] plus the body length it announces [%v]", len(v), MaxHeaderLength, h.Length)
+	}
 	p.Body = v[MaxHeaderLength : MaxHeaderLength+int(h.Length)]
 	return nil
 }
